@@ -114,6 +114,11 @@ func dEndpoints(e *xdsresource.EndpointsResource) interface{} {
 	for _, l := range e.Localities {
 		var eps []interface{}
 		for _, ep := range l.Endpoints {
+			if ep == nil {
+				// observation-only value: no model produces it, so a decoder that leaves a hole in the list disagrees
+				eps = append(eps, P("<nil endpoint>", uint64(0)))
+				continue
+			}
 			eps = append(eps, P(ep.Addr().String(), uint64(ep.Weight())))
 		}
 		locs = append(locs, Lof(eps))
